@@ -101,14 +101,10 @@ type Run struct {
 	linRows  []*Term
 	clock    []*Term
 	lastPanic string
+	bypass   map[*ssa.Function]bool
 }
 
 type intModeT struct{}
-
-func (*intModeT) binop(r *Run, op interface{}, x, y *Term, ta, tb interface{}) (Value, bool) {
-	return nil, false
-}
-func (*intModeT) convert(r *Run, x *Term, from, to interface{}) (Value, bool) { return nil, false }
 
 // HarnessRun is the shared state of all paths of one harness.
 type HarnessRun struct {
@@ -142,6 +138,7 @@ type HarnessRun struct {
 }
 
 func (r *Run) addPC(c *Term) {
+	r.drainPending()
 	if c.IsConst() {
 		if c.k == 0 {
 			panic(&pathEnd{kind: "infeasible", msg: "constant false constraint"})
@@ -175,6 +172,7 @@ func (r *Run) addPC(c *Term) {
 // of them are asserted together with the rows — sat there is a genuine model of the full PC;
 // (C) the full query as a last resort.
 func (r *Run) query(c *Term, wantModel bool, extra []*Term) (string, map[string]uint64) {
+	r.drainPending()
 	r.flush()
 	if c != nil {
 		if c.IsConst() && c.k == 0 {
@@ -586,7 +584,7 @@ func (r *Run) concretize(t *Term, what string) uint64 {
 		}
 		r.pos++
 		r.log = append(r.log, d)
-		r.addPC(ts.Eq(t, ts.Const(t.w, d.V)))
+		r.addPC(ts.Eq(t, r.constLike(t, d.V)))
 		return d.V
 	}
 	// enumerate feasible values
@@ -654,7 +652,7 @@ func (r *Run) concretize(t *Term, what string) uint64 {
 			capHit = true
 			break
 		}
-		r.solver.Send(fmt.Sprintf("(assert (not (= %s %s)))", t.ref(), bvLit(t.w, v)))
+		r.solver.Send(fmt.Sprintf("(assert (not (= %s %s)))", t.ref(), r.constLike(t, v).ref()))
 	}
 	r.solver.Send("(pop 1)")
 	if capHit {
@@ -674,8 +672,16 @@ func (r *Run) concretize(t *Term, what string) uint64 {
 	}
 	r.pos++
 	r.log = append(r.log, Decision{'v', vals[0]})
-	r.addPC(ts.Eq(t, ts.Const(t.w, vals[0])))
+	r.addPC(ts.Eq(t, r.constLike(t, vals[0])))
 	return vals[0]
+}
+
+// constLike builds the constant v of the same sort as t (Int: v is a two's-complement int64).
+func (r *Run) constLike(t *Term, v uint64) *Term {
+	if t.w == IntW {
+		return r.ts.IConst64(int64(v))
+	}
+	return r.ts.Const(t.w, v)
 }
 
 // choose picks a value in [0,n) without involving the solver; all alternatives are queued.
@@ -900,7 +906,7 @@ func (h *HarnessRun) runPath(sv *Solver, prefix []Decision) {
 		choices: map[string]int{}, nameCount: map[string]int{},
 		maxSteps: 3000000, unwind: 4096, allocLimit: 1 << 16, symIndexFork: 0,
 		mutex: map[string]int{}, hashes: map[*Obj]*hashGhost{}, ghostVal: map[string]Value{},
-		objSeq: 1 << 20,
+		objSeq: 1 << 20, bypass: map[*ssa.Function]bool{},
 	}
 	outcome := "ok"
 	msg := ""
